@@ -760,7 +760,7 @@ fn random_atom(r: &mut Rng, at: &[Ex], lvalue: bool) -> Ex {
     if lvalue && r.chance(3, 4) {
         return var(r.pick(&["a", "b", "z", "m", "n", "o", "h"]));
     }
-    match r.below(10) {
+    match r.below(if at.len() == 17 { 40 } else { 10 }) {
         0 => Num(r.pick(&[7i64, 8, 16, 31, 255, 4096, 1 << 32, (1 << 62) - 1, 1 << 62]).clone(), r.below(4) as u8),
         1 => Num((r.next() >> (1 + r.below(63))) as i64, r.below(4) as u8),
         2 => var(r.pick(&["o", "h", "j", "_x1"])),
@@ -881,18 +881,73 @@ fn main() {
         }
     }
 
+    // 2b. the same pairs written flat, WITHOUT the parentheses a tree would need: `x op1 y op2 z`,
+    //     `x op y ? z : w`, `x ? y op z : w`, `x ? y : z op w`, unary operators in front of and behind
+    //     binary ones.  No tree is sent: the Spec reads the text with its own grammar.
+    let mild: Vec<Ex> = {
+        let mut v: Vec<Ex> = (0..10i64).map(|n| Num(n, 0)).collect();
+        for x in ["a", "b", "o", "h", "z", "b", "a"] {
+            v.push(var(x));
+        }
+        v
+    };
+    let flat_fills = if thorough { 40 } else { 3 };
+    let leaf = |r: &mut Rng, lv: bool| -> String {
+        let e = if r.chance(1, 2) { random_atom(r, &mild, lv) } else { random_atom(r, &at, lv) };
+        let mut rr = Rng::new(1);
+        render(&e, 0, 0, &mut rr)
+    };
+    for (op1, _, right1) in BINARY {
+        for (op2, _, _) in BINARY {
+            for _ in 0..flat_fills {
+                let toks = vec![leaf(&mut r, right1), op1.to_string(), leaf(&mut r, true), op2.to_string(), leaf(&mut r, false)];
+                let style = r.below(2) as u8;
+                out.put(make_case(join(&toks, style, &mut r), &env0, None));
+            }
+        }
+        for k in 0..4 * flat_fills {
+            let l = |r: &mut Rng| {
+                let lv = r.chance(1, 2);
+                leaf(r, lv)
+            };
+            let q = "?".to_string();
+            let c = ":".to_string();
+            let o = op1.to_string();
+            let toks = match k % 4 {
+                0 => vec![l(&mut r), o, l(&mut r), q, l(&mut r), c, l(&mut r)],
+                1 => vec![l(&mut r), q, l(&mut r), o, l(&mut r), c, l(&mut r)],
+                2 => vec![l(&mut r), q, l(&mut r), c, l(&mut r), o, l(&mut r)],
+                _ => vec![l(&mut r), q.clone(), l(&mut r), c.clone(), l(&mut r), q, l(&mut r), o, l(&mut r), c, l(&mut r)],
+            };
+            let style = r.below(2) as u8;
+            out.put(make_case(join(&toks, style, &mut r), &env0, None));
+            let pre = r.pick(&PREFIX).to_string();
+            let post = r.pick(&POSTFIX).to_string();
+            let toks = match k % 4 {
+                0 => vec![pre, l(&mut r), op1.to_string(), l(&mut r)],
+                1 => vec![l(&mut r), op1.to_string(), pre, l(&mut r)],
+                2 => vec![l(&mut r), post, op1.to_string(), l(&mut r)],
+                _ => vec![pre, l(&mut r), post, op1.to_string(), l(&mut r), r.pick(&POSTFIX).to_string()],
+            };
+            out.put(make_case(join(&toks, style, &mut r), &env0, None));
+        }
+    }
+
     // 3. random full-ish trees of depth 3 (minimal parentheses) and deeper trees with redundant
-    //    parentheses, random white space, literal spellings and environments
-    let n3 = if thorough { 300_000 } else { 4_000 };
-    for _ in 0..n3 {
-        let t = random_tree(&mut r, 3, &at, &sh, false);
+    //    parentheses, random white space, literal spellings and environments; half of them over small
+    //    operands (so that deep trees have values, not only overflow errors)
+    let n3 = if thorough { 1_000_000 } else { 4_000 };
+    for i in 0..n3 {
+        let pool = if i % 2 == 0 { &at } else { &mild };
+        let t = random_tree(&mut r, 3, pool, &sh, false);
         let text = render(&t, 0, r.below(2) as u8, &mut r);
         out.put(make_case(text, &env0, Some(&t)));
     }
-    let nd = if thorough { 300_000 } else { 6_000 };
-    for _ in 0..nd {
+    let nd = if thorough { 800_000 } else { 6_000 };
+    for i in 0..nd {
         let depth = 2 + r.below(5);
-        let t = random_tree(&mut r, depth, &at, &sh, false);
+        let pool = if i % 3 == 0 { &at } else { &mild };
+        let t = random_tree(&mut r, depth, pool, &sh, false);
         let extra = *r.pick(&[0u32, 10, 30]);
         let text = render(&t, extra, 2, &mut r);
         let env = random_env(&mut r);
@@ -932,7 +987,7 @@ fn main() {
 
     // 5. token soup, mutated well-formed expressions, character soup
     let lex = all_lexemes();
-    let ns = if thorough { 200_000 } else { 5_000 };
+    let ns = if thorough { 400_000 } else { 5_000 };
     for _ in 0..ns {
         let n = 1 + r.below(9);
         let toks: Vec<String> = (0..n)
@@ -946,7 +1001,7 @@ fn main() {
         let env = random_env(&mut r);
         out.put(make_case(text, &env, None));
     }
-    let nm = if thorough { 150_000 } else { 4_000 };
+    let nm = if thorough { 300_000 } else { 4_000 };
     for _ in 0..nm {
         let d = 1 + r.below(3);
         let t = random_tree(&mut r, d, &at, &sh, false);
@@ -976,7 +1031,7 @@ fn main() {
         let text = join(&toks, style, &mut r);
         out.put(make_case(text, &env0, None));
     }
-    let nc = if thorough { 150_000 } else { 3_000 };
+    let nc = if thorough { 300_000 } else { 3_000 };
     let alphabet: Vec<char> = "0123456789abxXzmn_ +-*/%<>=!&|^~?:()\t\n.,#$@'\"\\[]{}".chars().collect();
     for _ in 0..nc {
         let n = r.below(13);
